@@ -298,7 +298,71 @@ def run_reuse(chk, spec):
 	judge_table(chk, s2, second.value, text)
 
 
-RUNNERS = {"csv": run_csv, "raw": run_raw, "reuse": run_reuse}
+def run_special_path(chk, spec):
+	"""a path that is not a regular file - a FIFO, a pipe reached as /dev/fd/N - reports size 0 and still delivers records: read_csv reads them"""
+	import os, tempfile, threading
+	from ..bind import serif
+	text = "a,b\r\n" + "".join(f"{i},x{i}\r\n" for i in range(spec["records"]))
+	o = None
+	if spec["how"] == "fifo":
+		d = tempfile.mkdtemp(prefix="serifmon-fifo-")
+		path = os.path.join(d, "data.csv")
+		try:
+			os.mkfifo(path)
+		except (AttributeError, OSError):
+			chk.skip("no-fifo-here")
+			return
+		def writer():
+			try:
+				with open(path, "w", newline="") as f:
+					f.write(text)
+			except OSError:
+				pass
+		th = threading.Thread(target=writer, daemon=True)
+		th.start()
+		try:
+			o = call(serif.read_csv, path)
+			if th.is_alive():
+				# nobody opened the read end: unblock the writer
+				try:
+					fd = os.open(path, os.O_RDONLY | os.O_NONBLOCK)
+					os.close(fd)
+				except OSError:
+					pass
+			th.join(5)
+		finally:
+			try:
+				os.unlink(path); os.rmdir(d)
+			except OSError:
+				pass
+	else:
+		r, w = os.pipe()
+		os.write(w, text.encode())
+		os.close(w)
+		path = f"/dev/fd/{r}"
+		if not os.path.exists(path):
+			os.close(r)
+			chk.skip("no-dev-fd-here")
+			return
+		try:
+			o = call(serif.read_csv, path)
+		finally:
+			try:
+				os.close(r)
+			except OSError:
+				pass
+	chk.judged("csv", ("special-path", spec["how"], spec["records"]))
+	if not o.ok:
+		chk.skip("special-path-refused")
+		return
+	t = o.value
+	got = [list(c._underlying) for c in t.cols()]
+	exp = [list(range(spec["records"])), [f"x{i}" for i in range(spec["records"])]]
+	if got != exp:
+		chk.fail("one row per data record", f"csv/special-path/{spec['how']}/records-lost", f"{spec!r}: read {short(got, 120)}, the path delivered {short(exp, 120)}")
+
+
+RUNNERS = {"csv": run_csv, "raw": run_raw, "reuse": run_reuse, "special_path": run_special_path}
 
 EXTRA_CELLS = ["ab\x00cd", "\x00", "12\x00", " q\x00 ", "\x001", "a\x0bb", "a\x0cb", "1\x0c2", "a\x1cb", "a\x1db", "a\x1eb", "a\x85b", "a\u2028b", "a\u2029b", "crlf\r\ninside", "old\rmac", "-2_5", "1__0", "_1", "1_", "+.5e-3", "0b1", "1e400", "NaN", "  -inf ", "٣", "１２", "1 000", " ", "x "]
 
@@ -369,6 +433,14 @@ def run(chk):
 		for via in ("fileobj", "path"):
 			for limit in (10 ** 6, 2 ** 31 - 1):
 				chk.case("csv", {"op": "csv", "header": ["a", "b"], "grid": [["1", "x" * size], ["y" * size, "2"]], "delimiter": ",", "has_header": True, "ncols": 2, "via": via, "pattern": "long-field", "field_limit": limit}, "csv-long-field-limit-raised")
+	# physical LINES longer than the csv module's field size limit whose FIELDS all stay within it: a wide record under the default limit, ordinary lines after the program lowered it
+	wide = [[("%04d" % c) + "x" * 3996 for c in range(40)], [str(c) for c in range(40)]]
+	for via in ("fileobj", "path", "tempfile", "spooled", "wrapper"):
+		chk.case("csv", {"op": "csv", "header": [f"h{c}" for c in range(40)], "grid": wide, "delimiter": ",", "has_header": True, "ncols": 40, "via": via, "pattern": "wide-record"}, "csv-line-longer-than-field-limit")
+		chk.case("csv", {"op": "csv", "header": ["alpha", "beta", "gamma"], "grid": [["a" * 25, "b" * 25, "c" * 25], ["1", "2", "3"], ["d" * 30, "", "e" * 30]], "delimiter": ",", "has_header": True, "ncols": 3, "via": via, "pattern": "lowered-field-limit", "field_limit": 32}, "csv-line-longer-than-field-limit")
+	for nrec in (1, 3):
+		for how in ("fifo", "dev-fd"):
+			chk.case("special_path", {"how": how, "records": nrec}, "csv-special-path")
 	# more records than any batch size, a column that is blank for the first several thousand of them
 	for nrows, first_value_at in ((5000, 4200), (9000, 8200), (4097, 4096)):
 		grid = [["" if r < first_value_at else str(r), "s" if r % 2 else "", str(r)] for r in range(nrows)]
